@@ -188,20 +188,32 @@ def cross_monitor(cases, impl, model):
 
 
 def remark_of(listed):
-    """text after the remark marker of a listed line (None if there is no remark)"""
+    """text after the remark marker of a listed line (None if there is no remark).
+    A ' is a marker only where a token can start: the scanner gathers characters outside BASIC's alphabet ({ [ ~ @ ...)
+    together with everything up to the next letter, digit or blank into one unknown token, apostrophes included."""
     in_str = False
+    in_unknown = False
     i = 0
     n = len(listed)
     while i < n:
         ch = listed[i]
+        if in_unknown:
+            if ch.isalnum() or ch in " \t":
+                in_unknown = False
+            else:
+                i += 1
+                continue
         if ch == '"':
             in_str = not in_str
         elif not in_str:
             if ch == "'":
                 return listed[i + 1:]
-            if listed[i:i + 3] == "REM" and (i == 0 or not listed[i - 1].isalnum()) and (i + 3 >= n or not listed[i + 3].isalnum() or True):
-                if i == 0 or not listed[i - 1].isalnum():
-                    return listed[i + 3:]
+            if listed[i:i + 3] == "REM" and (i == 0 or not listed[i - 1].isalnum()):
+                return listed[i + 3:]
+            if not (ch.isalnum() or ch in " \t(),:;?^*/\\+-=<>&.$%!#"):
+                in_unknown = True
+            if ch in "$%!#" and (i == 0 or not listed[i - 1].isalnum()):
+                in_unknown = True          # a type suffix with nothing to attach to is an unknown character too
         i += 1
     return None
 
